@@ -160,6 +160,111 @@ Definition residual (data : image) : option image :=
   match render with Err => None | Img _ img => Some (sub_image data img) end.
 End Render.
 
+(* ---------- vocabulary of the property statement (used by C18_Proofs / C18_Properties) ----------
+   None of this is used by [render]; the theorems relate [render] to it. *)
+Definition with_rows (t : table) (l : list row) : table :=
+  {| colnames := colnames t; has_shape_col := has_shape_col t; has_bkg_col := has_bkg_col t; rows := l |}.
+Definition with_shape (c : config) (ny' nx' : Z) : config :=
+  {| ny := ny'; nx := nx'; pinit := pinit c; has_bbox := has_bbox c; x_name := x_name c; y_name := y_name c;
+     pmap := pmap c; mshape := mshape c; bfactor := bfactor c |}.
+
+Section Spec.
+Variable ev : pstate -> Z -> Z -> Z.
+Variable bbox_shape : option Z -> pstate -> Z * Z.
+Variable ev_unit : pstate -> option Z.
+Variable c : config.
+Variable t : table.
+(* the parameters of the model for one row: the INPUT model's parameters with the mapped
+   ones replaced by the row's entries (no dependence on the rows rendered before) *)
+Definition rstate (r : row) : pstate := assign (build_map c t) (colnames t) r (pinit c).
+Definition row_y8 (r : row) : Z := pget (y_name c) (rstate r).
+Definition row_x8 (r : row) : Z := pget (x_name c) (rstate r).
+Definition shape_of (r : row) : Z * Z :=
+  if has_shape_col t then rshape r
+  else match mshape c with None => bbox_shape (bfactor c) (rstate r) | Some s => s end.
+Definition bkg_of (r : row) : Z := if has_bkg_col t then rbkg r else 0.
+(* pixel centre k lies in the half-open box of [sh] pixels centred on pos = pos8/8:
+   pos - sh/2 <= k < pos + sh/2 *)
+Definition in_box (pos8 sh k : Z) : Prop := 2 * pos8 - 8 * sh <= 16 * k < 2 * pos8 + 8 * sh.
+Definition in_boxb (pos8 sh k : Z) : bool := (2 * pos8 - 8 * sh <=? 16 * k) && (16 * k <? 2 * pos8 + 8 * sh).
+(* pixel (y, x) belongs to the row's model_shape window clipped to the image *)
+Definition in_window (r : row) (y x : Z) : Prop :=
+  0 <= y < ny c /\ 0 <= x < nx c /\
+  in_box (row_y8 r) (fst (shape_of r)) y /\ in_box (row_x8 r) (snd (shape_of r)) x.
+Definition in_windowb (r : row) (y x : Z) : bool :=
+  in_rng 0 (ny c) y && in_rng 0 (nx c) x &&
+  in_boxb (row_y8 r) (fst (shape_of r)) y && in_boxb (row_x8 r) (snd (shape_of r)) x.
+(* what one row contributes to pixel (y, x) *)
+Definition term (y x : Z) (r : row) : Z :=
+  if in_windowb r y x then ev (rstate r) y x + bkg_of r else 0.
+Definition overlaps (r : row) : bool :=
+  match overlap_slices (ny c) (nx c) (shape_of r) (row_y8 r) (row_x8 r) with None => false | Some _ => true end.
+(* the call is accepted (no ValueError) *)
+Definition accepted : bool :=
+  valid_map c t (build_map c t)
+  && negb (negb (has_shape_col t) && negb (has_bbox c) && match mshape c with None => true | Some _ => false end).
+Definition units_uniform : Prop :=
+  forall r r', In r (rows t) -> In r' (rows t) -> ev_unit (rstate r) = ev_unit (rstate r').
+End Spec.
+
+Definition zsum (l : list Z) : Z := fold_right Z.add 0 l.
+Definition rect (ny nx : Z) (img : image) : Prop :=
+  List.length img = Z.to_nat ny /\ Forall (fun r => List.length r = Z.to_nat nx) img.
+Definition img_add (a b : image) : image :=
+  map (fun ab => map (fun vw => fst vw + snd vw) (combine (fst ab) (snd ab))) (combine a b).
+
+(* ---------- the UNREPAIRED loop (images.py at /repo HEAD), only for the refutation witnesses ----------
+   (a) the unit is attached only when row 0 overlaps; adding a Quantity sub-image to a plain
+       image raises UnitTypeError (Err);
+   (b) mod_shape is an ndarray whenever it comes from the model_shape argument or column, and
+       astropy's test [e_max == 0 and small_array_shape != (0, 0)] then raises ValueError. *)
+Inductive ov3 := OvErr | OvNone | OvSome (w : window).
+Definition overlap_slices_orig (arr : bool) (ny nx : Z) (sh : Z * Z) (y8 x8 : Z) : ov3 :=
+  let lift := match overlap_slices ny nx sh y8 x8 with None => OvNone | Some w => OvSome w end in
+  let ymax := e_min y8 (fst sh) + fst sh in let xmax := e_min x8 (snd sh) + snd sh in
+  if arr then
+    if ymax <? 0 then OvNone else if ymax =? 0 then OvErr
+    else if xmax <? 0 then OvNone else if xmax =? 0 then OvErr else lift
+  else lift.
+
+Section RenderOrig.
+Variable ev : pstate -> Z -> Z -> Z.
+Variable bbox_shape : option Z -> pstate -> Z * Z.
+Variable ev_unit : pstate -> option Z.
+Variable c : config.
+Variable t : table.
+Definition step_orig (m : dict string) (shapes : list (Z * Z)) (bkgs : list Z)
+           (acc : option (nat * pstate * image * option Z)) (r : row) :=
+  match acc with
+  | None => None
+  | Some (i, st, img, u) =>
+    let st' := assign m (colnames t) r st in
+    let arr := has_shape_col t || match mshape c with None => false | Some _ => true end in
+    let sh := if has_shape_col t then nth i shapes (0, 0)
+              else match mshape c with None => bbox_shape (bfactor c) st' | Some s => s end in
+    match overlap_slices_orig arr (ny c) (nx c) sh (pget (y_name c) st') (pget (x_name c) st') with
+    | OvErr => None
+    | OvNone => Some (S i, st', img, u)
+    | OvSome w =>
+      let u' := if Nat.eqb i 0 then ev_unit st' else u in
+      match ev_unit st', u' with
+      | Some _, None => None                                    (* UnitTypeError *)
+      | _, _ => Some (S i, st', add_window img w (fun y x => ev st' y x + nth i bkgs 0), u')
+      end
+    end
+  end.
+Definition render_orig : result :=
+  let m := build_map c t in
+  if negb (accepted c t) then Err
+  else
+    let shapes := map rshape (rows t) in
+    let bkgs := if has_bkg_col t then map rbkg (rows t) else repeat 0 (List.length (rows t)) in
+    match fold_left (step_orig m shapes bkgs) (rows t) (Some (0%nat, pinit c, zeros (ny c) (nx c), None)) with
+    | None => Err
+    | Some (_, _, img, u) => Img u img
+    end.
+End RenderOrig.
+
 (* ---------- the polynomial test model of harness/c18.py ---------- *)
 (* parameters by position: 0 flux, 1 x, 2 y, 3 tx, 4 ty, 5 q, 6 r *)
 Definition pval (k : nat) (st : pstate) : Z := snd (nth k st (EmptyString, 0)).
@@ -171,7 +276,6 @@ Definition poly_point (st : pstate) (X8 Y8 : Z) : Z :=
    2 / 4 oversample with that factor *)
 Definition offsets (mode : Z) : list Z :=
   if mode =? 1 then [-4; 4] else if mode =? 2 then [-2; 2] else if mode =? 4 then [-3; -1; 1; 3] else [0].
-Definition zsum (l : list Z) : Z := fold_right Z.add 0 l.
 (* 65536 * pixel value *)
 Definition poly_ev (mode : Z) (st : pstate) (y x : Z) : Z :=
   let offs := offsets mode in
